@@ -115,8 +115,19 @@ def queries_stream(rng, thorough, streams, viol, samples):
     d = np.load(os.path.join(C.REPO, "radioactivedecay/icrp107_ame2020_nubase2020/decay_data.npz"), allow_pickle=True)
     names = [str(x) for x in d["nuclides"]]
     units = TIME if thorough else (["s", "y"] + rng.sample(TIME, 6))
-    impl = run_impl("impl_queries.py", {"units": TIME, "pairs": True})
+    year_nucs = [str(n) for n, h in zip(d["nuclides"], d["hldata"]) if str(h[1]) == "y"][:3]
+    other = [str(n) for n, h in zip(d["nuclides"], d["hldata"]) if str(h[1]) in ("d", "h") and float(h[0]) != math.inf][:3]
+    impl = run_impl("impl_queries.py", {"units": TIME, "pairs": True, "second_dataset": year_nucs[:2] + other[:1],
+                                         "second_probe": year_nucs[2:] + other[1:]})
+    second = impl.pop()["second"]
     terms, bad_prop = [], []
+    for r in second:
+        for got, exp, lab in ((r["default"], r["expect_default"], "default data set"), (r["default_again"], r["expect_default"], "default data set (after querying a second data set)"),
+                              (r["copy"], r["expect_copy"], "second data set (other days-per-year / half-lives)"),
+                              (r["copy_nuclide"], r["expect_copy"], "second data set through Nuclide")):
+            if not (got == exp or abs(got - exp) <= 4 * math.ulp(exp)):
+                bad_prop.append((r["nuc"], f"half_life({r['nuc']!r}, {r['unit']!r}) of the {lab} is {got!r}, its stored half-life converts to {exp!r}", r))
+                break
     n_pairs = 0
     for i, r in enumerate(impl):
         name = names[i]
@@ -175,7 +186,14 @@ def time_stream(rng, thorough, streams, viol, samples):
         for _ in range(40 if thorough else 8):
             t = 10 ** rng.uniform(-12, 12)
             cases.append({"nuc": rng.choice(radio), "t": float(t).hex(), "unit": u})
-    halving = radio if thorough else rng.sample(radio, 150)
+    import numpy as np
+    dd = np.load(os.path.join(C.REPO, "radioactivedecay/icrp107_ame2020_nubase2020/decay_data.npz"), allow_pickle=True)
+    by_unit = {}
+    for n, h in zip(dd["nuclides"], dd["hldata"]):
+        if float(h[0]) != math.inf:
+            by_unit.setdefault(str(h[1]), []).append(str(n))
+    rare = [n for u, l in by_unit.items() for n in l[:3]]          # every storage unit is represented
+    halving = radio if thorough else sorted(set(rng.sample(radio, 150) + rare))
     hp = rng.sample(radio, 12 if thorough else 2)
     hp_units = TIME if thorough else rng.sample(TIME, 6)
     bad_units = ["", "S", "Y", "sec ", "minutes", "min", "w", "a", "Ky", "ks", "yrs", "µs", "Sec", "Bq", "num", "readable "]
@@ -247,6 +265,13 @@ def fractions_stream(rng, thorough, streams, viol, samples):
         decay = float(10 ** rng.uniform(-3, 12)).hex() if rng.random() < 0.4 else None
         cases.append({"contents": cont, "unit": unit, "decay": decay, "scale": float(2.0 ** rng.randint(-30, 30)).hex(),
                       "hp": (k % (25 if thorough else 40) == 0) and len(chosen) <= 6})
+    # both classes on small inventories whose amounts are small or large in the creation unit (6 significant digits)
+    for k in range(40 if thorough else 10):
+        chosen = rng.sample(radio, rng.randint(2, 4))
+        mag = rng.choice([-22, -18, -12, -6, 0, 6, 15])
+        unit = rng.choice(["Bq", "g", "mol", "kBq", "mg", "num"])
+        cont = {c: float(f"{10 ** (mag + rng.uniform(0, 2)):.5g}").hex() for c in chosen}
+        cases.append({"contents": cont, "unit": unit, "decay": None, "scale": float(4.0).hex(), "hp": True})
     impl = run_impl("impl_fractions.py", cases, timeout=3000)
     terms, idxmap, bad_prop = [], [], []
     for k, (c, r) in enumerate(zip(cases, impl)):
@@ -281,6 +306,8 @@ def fractions_stream(rng, thorough, streams, viol, samples):
                 hv = [float.fromhex(r["fr_hp"][kind][n]) for n in keys if n in r["fr_hp"][kind]]
                 if len(hv) == len(vals) and any(abs(a - b) > 1e-9 * max(abs(b), 1e-300) + 1e-300 for a, b in zip(hv, vals)) and not c.get("decay"):
                     bad_prop.append((c, f"{kind} fractions differ between the two classes"))
+            elif "fr_hp" in r and isinstance(r["fr_hp"][kind], str) and not c.get("decay"):
+                bad_prop.append((c, f"{kind} fractions of the high-precision class raised {r['fr_hp'][kind]} although the total is positive"))
         cont = "[" + "; ".join(f"({Q.cstr(n)}, ({Q.fhex(float.fromhex(r['numbers'][n]))}, {'true' if r['pyfloat'][n] else 'false'}))" for n in keys) + "]"
         lst = lambda kind: "[" + "; ".join(Q.fhex(float.fromhex(fr[kind][n])) for n in keys) + "]"
         terms.append(f"({cont}, ({lst('activity')}, {lst('mass')}, {lst('mole')}))")
